@@ -114,6 +114,8 @@ let parse_op name t : op option =
   | "raw" -> Some (WRaw (mk_elem t))
   | "oda" -> Some ODA
   | "str" -> Some (WStr (mk_string t))
+  | "cstr" -> Some (WStr (s_of_cstr (unhex (str t))))
+  | "stdstr" -> Some (WStr (s_of_bytes (unhex (str t))))
   | "move" -> let a = num t in let b = num t in Some (Move (pt a b))
   | "save" -> Some Save | "restore" -> Some Restore
   | "show" -> Some Show | "hide" -> Some Hide
@@ -158,6 +160,7 @@ let model_line out w line =
           let tm = { beh = mk_beh (num t); st = init_tstate; ps = init_pstate; armed = false } in
           Hashtbl.replace w.terms id tm; out (pr_state tm.st) end
         else if name = "failnext" then Hashtbl.replace failnext id true
+        else if name = "sleep" then ()
         else begin
           let tm = Hashtbl.find w.terms id in
           let bytes =
